@@ -13,6 +13,7 @@ import (
 
 	"verifharness/explore"
 	"verifharness/hv"
+	"verifharness/ref"
 )
 
 // ---- C07: instances are isolated; a quiescent router serves concurrently ----
@@ -454,7 +455,10 @@ func freshVector() []string {
 		r := NewRouter(RouterCfg{Trace: trace})
 		v = append(v, fmt.Sprintf("trace=%v empty: %s", trace, strings.Join(c17Vector(r, []string{"/posts", "/p/zz"}), " ## ")))
 		r.Handle("/posts", hv.Route("h"), nil, "GET", "PUT")
-		v = append(v, fmt.Sprintf("trace=%v +/posts[GET,PUT]: %s", trace, strings.Join(c17Vector(r, []string{"/posts", "/p/zz"}), " ## ")))
+		r.Handle("/p/{x}", hv.Route("h2"), nil, "GET")
+		r.Handle("/posts/abc", hv.Route("h3"), nil, "GET", "POST")
+		r.Handle("/posts/author", hv.Route("h4"), nil)
+		v = append(v, fmt.Sprintf("trace=%v +4 routes: %s", trace, strings.Join(c17Vector(r, []string{"/posts", "/p/zz", "/posts/abc", "/posts/author"}), " ## ")))
 	}
 	h := mux.NewHosts(false, "a.com")
 	ctx := types.NewContext()
@@ -467,64 +471,77 @@ func freshVector() []string {
 
 func c07bBaseline(raw json.RawMessage) (any, error) { return freshVector(), nil }
 
-func c07bExpand(raw json.RawMessage) (any, error) {
-	var in explore.ExpandIn
-	if err := json.Unmarshal(raw, &in); err != nil {
+type c07bItem struct {
+	History  []int    `json:"h"`
+	Baseline []string `json:"baseline"`
+}
+
+// c07bJob runs ONE history of other-instance activity as the first thing a brand-new process does, then
+// observes brand-new instances. Hidden process-wide state is exactly what is being tested, so nothing may
+// leak in from other histories: one process per history.
+func c07bJob(raw json.RawMessage) (any, error) {
+	var it c07bItem
+	if err := json.Unmarshal(raw, &it); err != nil {
 		return nil, err
 	}
-	var cfg c07bCfg
-	json.Unmarshal(in.Cfg, &cfg)
+	out := &simpleOut{}
 	alpha := c07bAlphabet()
-	hist := make([]Op, len(in.History))
-	for i, k := range in.History {
-		hist[i] = alpha[k]
+	full := make([]Op, len(it.History))
+	for i, k := range it.History {
+		full[i] = alpha[k]
 	}
-	_, pt, perr := buildHistory(RouterCfg{}, hist)
-	if perr != "" {
-		return nil, fmt.Errorf("parent not replayable: %s", perr)
-	}
-	var kids []explore.Child
-	for k, op := range alpha {
-		if !Enabled(pt, op) || !in.Want(k) {
-			continue
+	// prior activity on OTHER instances: a plain router, a trace router and a Hosts
+	r1, _, _ := buildHistory(RouterCfg{Name: "other"}, full)
+	r2, _, _ := buildHistory(RouterCfg{Name: "other-trace", Trace: true}, nil)
+	for _, o := range full {
+		if !(o.K == "handle" && len(o.Ms) == 1 && o.Ms[0] == "TRACE") {
+			ApplyImpl(r2, o)
 		}
-		full := append(append([]Op{}, hist...), op)
-		// prior activity on OTHER instances: a plain router, a trace router and a Hosts
-		r1, _, _ := buildHistory(RouterCfg{Name: "other"}, full)
-		r2, _, _ := buildHistory(RouterCfg{Name: "other-trace", Trace: true}, nil)
-		for _, o := range full {
-			if !(o.K == "handle" && len(o.Ms) == 1 && o.Ms[0] == "TRACE") {
-				ApplyImpl(r2, o)
+	}
+	hs := mux.NewHosts(false, "x.com", "{s}.y.com")
+	hs.Delete("x.com")
+	for _, p := range []string{"/posts", "/posts/author", "/p/zz"} {
+		hv.Serve(r1, hv.Req{Method: "OPTIONS", Path: p})
+		hv.Serve(r2, hv.Req{Method: "BOGUS", Path: p})
+	}
+	// a user of the OTHER instances edits the values they handed out (Routes(), Node().Methods()):
+	// that must stay that user's business
+	for _, rr := range []*Router{r1, r2} {
+		for _, ms := range rr.Routes() {
+			for i := range ms {
+				ms[i] = "CLOBBERED"
+			}
+			_ = append(ms, "EXTRA")
+		}
+		for _, p := range []string{"/posts", "/posts/author", "/p/zz", "/posts/abc"} {
+			o := hv.Serve(rr, hv.Req{Method: "GET", Path: p})
+			for i := range o.MethodsLive {
+				o.MethodsLive[i] = "CLOBBERED"
 			}
 		}
-		hs := mux.NewHosts(false, "x.com", "{s}.y.com")
-		hs.Delete("x.com")
-		for _, p := range []string{"/posts", "/posts/author", "/p/zz"} {
-			hv.Serve(r1, hv.Req{Method: "OPTIONS", Path: p})
-			hv.Serve(r2, hv.Req{Method: "BOGUS", Path: p})
-		}
-		c := explore.Child{Op: k}
-		got := freshVector()
-		c.Probes = int64(len(got))
-		for i := range got {
-			if i < len(cfg.Baseline) && got[i] != cfg.Baseline[i] {
-				c.Viols = append(c.Viols, explore.Violation{Property: "C07", Clause: "C07.history-independent", Class: "fresh-instance-depends-on-history", History: opsStrings(full),
-					Probe: "observation vector of a brand-new instance after this activity on other instances", Observed: got[i], Expected: "as in a virgin process: " + cfg.Baseline[i]})
-				break
-			}
-		}
-		c.Key = fmt.Sprint(in.History, k) // never merged: hidden process-wide state is exactly what is being tested
-		c.Outcomes = []string{got[0]}
-		kids = append(kids, c)
 	}
-	return kids, nil
+	got := freshVector()
+	out.Evals = int64(len(got))
+	for i := range got {
+		if i < len(it.Baseline) && got[i] != it.Baseline[i] {
+			out.Viols = append(out.Viols, explore.Violation{Property: "C07", Clause: "C07.history-independent", Class: "fresh-instance-depends-on-history", History: opsStrings(full),
+				Probe: "observation vector of brand-new instances after this activity on other instances (incl. editing the slices those instances handed out)", Observed: got[i], Expected: "as in a virgin process: " + it.Baseline[i],
+				Replay: explore.ItemReplay("c07/history1", it)})
+			break
+		}
+	}
+	out.Outcomes = []string{fmt.Sprint(len(out.Viols))}
+	if len(it.History) == 2 && it.History[0] == 0 && it.History[1] < 3 {
+		out.Sample = map[string]any{"other_instance_history": opsStrings(full), "fresh_vector_entries": len(got)}
+	}
+	return out, nil
 }
 
 func init() {
 	explore.RegisterJob("c07/instances", c07aJob)
 	explore.RegisterJob("c07/quiescent", c07cJob)
 	explore.RegisterJob("c07/baseline", c07bBaseline)
-	explore.RegisterJob("c07/history", c07bExpand)
+	explore.RegisterJob("c07/history1", c07bJob)
 	explore.Register(&explore.Check{ID: "C07", Run: func(rc *explore.RunCtx) {
 		if !explore.RaceEnabled {
 			rc.Fail("C07 needs the -race build (./verif C07)")
@@ -592,6 +609,28 @@ func init() {
 		var baseline []string
 		explore.ParMap(rc, "c07/baseline", []int{0}, func(i int, in int, o []string) { baseline = o })
 		rc.Set("history_depth", depth)
-		explore.BFS(rc, "c07/history", c07bCfg{Baseline: baseline}, depth, false, "C07 history independence")
+		// enumerate every model-enabled history up to the depth bound; one fresh process each
+		alpha := c07bAlphabet()
+		var hitems []c07bItem
+		var rec func(h []int, t *ref.Table)
+		rec = func(h []int, t *ref.Table) {
+			if len(h) > 0 {
+				hitems = append(hitems, c07bItem{History: append([]int{}, h...), Baseline: baseline})
+			}
+			if len(h) == depth {
+				return
+			}
+			for k, op := range alpha {
+				if !Enabled(t, op) {
+					continue
+				}
+				t2 := t.Clone()
+				ApplyModel(t2, op)
+				rec(append(h, k), t2)
+			}
+		}
+		rec(nil, ref.NewTable(nil, false))
+		rc.Set("other_instance_histories", len(hitems))
+		explore.ParMapFresh(rc, "c07/history1", hitems, func(i int, in c07bItem, o simpleOut) { mergeSimple(rc, o, "fresh_vector_entries") })
 	}})
 }
